@@ -4218,3 +4218,160 @@ func c15r11(c *Ctx, r *Report) {
 	}
 	r.check(bad == "", relName(pause)+":the cursor record survives the pause", pause.Pos(), pause, fmt.Sprintf("%d functions reachable, none writes x / y", len(reach)), bad+": the record no longer describes the cursor the terminal restores on Resume")
 }
+
+// c14r13: a remainder or quotient by a LENGTH (len(x), Merger.Length()) panics when the list is empty, and
+// the result list is empty whenever the query matches nothing. Each such divisor is shown non-zero: by a
+// strict comparison `v < n` on the path with v a non-negative counter, by a comparison of n with a constant
+// that excludes 0, or because n is the length of a slice that every return of a module function builds from a
+// non-empty array literal (round-6 mutant C09c6 wrapped the cursor with `(dest + count) % count`: --cycle with
+// an empty list crashed on the first up/down).
+func c14r13(c *Ctx, r *Report) {
+	l := c.L
+	r.rule("C14-R13", "A (a divisor that is a length is shown non-zero)", "P1",
+		"in packages fzf, tui and util, every integer `/` or `%` whose divisor is the result of len(..) or Merger.Length() is reached only where the divisor is known to be positive (strict upper bound of a non-negative counter, comparison with a constant, or length of a non-empty literal returned by a module function)",
+		"integer divide by zero in the event loop when the result list is empty: fzf crashes and leaves the terminal raw")
+	mlen := l.Fn("fzf", "(*Merger).Length")
+	nonNegCounter := func(v ssa.Value) bool {
+		phi, ok := v.(*ssa.Phi)
+		if !ok {
+			if k, isK := constIntVal(v); isK && k >= 0 {
+				return true
+			}
+			return false
+		}
+		okc := false
+		for _, e := range phi.Edges {
+			if k, isK := constIntVal(e); isK {
+				if k < 0 {
+					return false
+				}
+				okc = true
+				continue
+			}
+			b, ok := e.(*ssa.BinOp)
+			if !ok || b.Op != token.ADD || b.X != ssa.Value(phi) {
+				return false
+			}
+			if k, isK := constIntVal(b.Y); !isK || k < 0 {
+				return false
+			}
+		}
+		return okc
+	}
+	nonEmptyLiteralFn := func(v ssa.Value) bool {
+		call, ok := v.(*ssa.Call)
+		if !ok {
+			if u, ok := v.(*ssa.UnOp); ok && u.Op == token.MUL {
+				// a local holding the call result
+				if al, ok := u.X.(*ssa.Alloc); ok {
+					for _, st := range storesToAlloc(al) {
+						if c2, ok := st.Val.(*ssa.Call); ok {
+							call = c2
+						}
+					}
+				}
+				if fv, ok := u.X.(*ssa.FreeVar); ok {
+					if al := freeVarAlloc(v.Parent(), fv); al != nil {
+						for _, st := range storesToAlloc(al) {
+							if c2, ok := st.Val.(*ssa.Call); ok {
+								call = c2
+							}
+						}
+					}
+				}
+			}
+		}
+		if call == nil || call.Common().StaticCallee() == nil || call.Common().StaticCallee().Blocks == nil {
+			return false
+		}
+		f := call.Common().StaticCallee()
+		all, any := true, false
+		eachInstr(f, func(in ssa.Instruction) {
+			ret, ok := in.(*ssa.Return)
+			if !ok || len(ret.Results) == 0 {
+				return
+			}
+			any = true
+			sl, ok := retResult(ret, 0).(*ssa.Slice)
+			if !ok {
+				all = false
+				return
+			}
+			al, ok := sl.X.(*ssa.Alloc)
+			if !ok {
+				all = false
+				return
+			}
+			arr, ok := deref(al.Type()).Underlying().(*types.Array)
+			if !ok || arr.Len() == 0 || sl.Low != nil || sl.High != nil {
+				all = false
+			}
+		})
+		return all && any
+	}
+	n := 0
+	for _, fn := range l.AllFuncs() {
+		if fn.Blocks == nil || fn.Pkg == nil || !isModulePkg(fn.Pkg.Pkg) {
+			continue
+		}
+		var pc *PathConds
+		k := 0
+		eachInstr(fn, func(in ssa.Instruction) {
+			bo, ok := in.(*ssa.BinOp)
+			if !ok || (bo.Op != token.QUO && bo.Op != token.REM) {
+				return
+			}
+			if bt, ok := bo.Type().Underlying().(*types.Basic); !ok || bt.Info()&types.IsInteger == 0 {
+				return
+			}
+			d, ok := bo.Y.(*ssa.Call)
+			if !ok {
+				return
+			}
+			isLen := calleeName(d.Common()) == "builtin.len"
+			if !isLen && !(mlen != nil && callIs(d.Common(), mlen)) {
+				return
+			}
+			n++
+			k++
+			good := isLen && nonEmptyLiteralFn(d.Call.Args[0])
+			if !good {
+				if pc == nil {
+					pc = pathConds(fn)
+				}
+				holds, reach := pc.Implies(bo.Block(), func(lits []Lit) bool {
+					for _, lt := range lits {
+						cmp, ok := lt.Atom.(*ssa.BinOp)
+						if !ok {
+							continue
+						}
+						// v < n (true) or n > v (true), v a non-negative counter; n compared with a constant
+						switch {
+						case cmp.Y == ssa.Value(d) && nonNegCounter(cmp.X) && (cmp.Op == token.LSS && lt.Val || cmp.Op == token.GEQ && !lt.Val):
+							return true
+						case cmp.X == ssa.Value(d) && nonNegCounter(cmp.Y) && (cmp.Op == token.GTR && lt.Val || cmp.Op == token.LEQ && !lt.Val):
+							return true
+						}
+						if cmp.X == ssa.Value(d) {
+							if kk, isK := constIntVal(cmp.Y); isK {
+								switch {
+								case cmp.Op == token.GTR && lt.Val && kk >= 0, cmp.Op == token.LEQ && !lt.Val && kk >= 0:
+									return true
+								case cmp.Op == token.NEQ && lt.Val && kk == 0, cmp.Op == token.EQL && !lt.Val && kk == 0:
+									return true
+								case cmp.Op == token.GEQ && lt.Val && kk >= 1, cmp.Op == token.LSS && !lt.Val && kk >= 1:
+									return true
+								}
+							}
+						}
+					}
+					return false
+				})
+				good = holds || !reach
+			}
+			r.check(good, fmt.Sprintf("%s:divisor-length #%d is not zero", relName(fn), k), bo.Pos(), fn,
+				"the length is known to be positive here", "the divisor is a length that can be 0 on this path (empty result list): integer divide by zero")
+		})
+	}
+	r.floor("divisions by a length", n, 2)
+}
